@@ -248,8 +248,8 @@ def plan(run):
             cases.append({"levels": 3, "syms": s3, "prefix": [list(a), list(b)], "depth": 1, "nrows": [1, 2]})
     # combined with page_by / subline_by on another column (run pattern splits the rows at each position)
     for n in ((4,) if quick else (4, 5)):
-        for split in range(1, n):
-            grp = [0] * split + [1] * (n - split)
+        for grp in [[0] * split + [1] * (n - split) for split in range(1, n)] + [[r % 2 for r in range(n)], [(r // 2) % 2 for r in range(n)]]:
+            # (the last two: the page_by / subline_by value recurs - A, B, A - which is legal; only group_by keys must be contiguous)
             for which in ("page_by", "subline_by"):
                 for a in SYMS:
                     cases.append({"levels": 1, "prefix": [[a]], "depth": n - 1, "nrows": [2, 3], "only_len": n,
